@@ -154,7 +154,13 @@ Section Gen.
     BNode (v_qname var) [] [BData (enc (v_format var) x)].
   Definition g_item (rec : option qname -> value -> bitem) (var : xvar) (x : value) : bitem :=
     match x with VObj _ _ => rec (Some (v_qname var)) x | _ => g_prim var x end.
-  Definition g_field (rec : option qname -> value -> bitem) (var : xvar) (x : value) : list bitem :=
+  Definition g_wrap (var : xvar) (items : list bitem) : list bitem :=
+    match v_wrapper_qname var with
+    | Some ((_ :: _) as w) => [BNode w [] items]
+    | _ => items
+    end.
+
+  Definition g_items (rec : option qname -> value -> bitem) (var : xvar) (x : value) : list bitem :=
     match x with
     | VNone => []
     | _ =>
@@ -173,6 +179,8 @@ Section Gen.
                  end
              end
     end.
+  Definition g_field (rec : option qname -> value -> bitem) (var : xvar) (x : value) : list bitem :=
+    match x with VNone => [] | _ => g_wrap var (g_items rec var x) end.
 
   Fixpoint gobj (n : nat) (qn : option qname) (o : value) {struct n} : bitem :=
     match n, o with
@@ -192,7 +200,11 @@ Section Gen.
     cf_choices : m_choices m = [];
     cf_wildcards : m_wildcards m = [];
     cf_any : m_any_attributes m = [];
-    cf_wrappers : m_wrappers m = [];
+    cf_wrappers : forallb (fun e => negb (match assoc (fst e) (m_wrappers m) with Some _ => true | None => false end)
+                         && forallb (fun v => match v_wrapper_qname v with
+                                              | Some w => match assoc w (m_wrappers m) with Some _ => true | None => false end
+                                              | None => true
+                                              end) (snd e)) (m_elements m) = true;
     cf_nillable : m_nillable m = false;
     cf_mixed : m_mixed_content m = false;
     cf_elements : forallb (fun e => match snd e with [v] => str_eqb (v_qname v) (fst e) && wf_elem v | _ => false end) (m_elements m) = true;
@@ -215,7 +227,7 @@ Section Gen.
     - destruct (m_choices m); [reflexivity|discriminate].
     - destruct (m_wildcards m); [reflexivity|discriminate].
     - destruct (m_any_attributes m); [reflexivity|discriminate].
-    - destruct (m_wrappers m); [reflexivity|discriminate].
+    - exact H4.
     - apply negb_true_iff. exact H5.
     - apply negb_true_iff. exact H6.
     - exact H7.
@@ -328,7 +340,7 @@ Section Gen.
             | Some f => factory_default f (v_default var) = true
             end.
   Proof.
-    unfold wf_attr. intros H. peel H H4. peel H H3. peel H H2. peel H H1. peel H H0.
+    unfold wf_attr. intros H. peel H H4. peel H H3. peel H H2. peel H H1. peel H Hnw. peel H H0.
     destruct (v_clazz var); [discriminate|]. destruct (v_factory var); [discriminate|].
     apply negb_true_iff in H3.
     unfold var_type in H4. destruct (v_types var) as [|t [|? ?]] eqn:Et; try discriminate.
@@ -421,13 +433,13 @@ Section Gen.
   (* ---------------------------------------------------------------- element fields *)
   Lemma var_common_inv var : var_common var = true ->
     v_init var = true /\ v_mixed var = false /\ v_any_type var = false /\ v_nillable var = false
-    /\ v_elements var = [] /\ v_wildcards var = [] /\ v_wrapper_qname var = None /\ v_sequence var = None
+    /\ v_elements var = [] /\ v_wildcards var = [] /\ True /\ v_sequence var = None
     /\ v_index var <> 0.
   Proof.
-    unfold var_common. intros H. peel H H7. peel H H6. peel H H5. peel H H4. peel H H3. peel H H2. peel H H1. peel H H0.
+    unfold var_common. intros H. peel H H7. peel H H6. peel H H4. peel H H3. peel H H2. peel H H1. peel H H0.
     apply negb_true_iff in H0, H1, H2, H7. apply N.eqb_neq in H7.
     destruct (v_elements var); [|discriminate]. destruct (v_wildcards var); [|discriminate].
-    destruct (v_wrapper_qname var); [discriminate|]. destruct (v_sequence var); [discriminate|].
+    destruct (v_sequence var); [discriminate|].
     repeat split; assumption.
   Qed.
 
@@ -439,7 +451,7 @@ Section Gen.
             | Some f => factory_default f (v_default var) = true
             end.
   Proof.
-    unfold wf_text. intros H. peel H H4. peel H H3. peel H H2. peel H H1.
+    unfold wf_text. intros H. peel H H4. peel H H3. peel H H2. peel H Hnw. peel H H1.
     split; [exact H|]. split; [exact H1|].
     unfold var_type in H4. destruct (v_types var) as [|t [|? ?]]; try discriminate.
     apply andb_true_iff in H4 as [Hs Hd]. exists t. repeat split; try assumption.
@@ -529,7 +541,7 @@ Section Gen.
     /\ ((exists k, v_types var = [TClass k] /\ v_clazz var = Some k /\ v_tokens_factory var = None)
         \/ (exists t, v_types var = [t] /\ simple_type t = true /\ v_clazz var = None)).
   Proof.
-    unfold wf_elem. intros H. peel H H1. peel H Hq. peel H H0. split; [apply kind_elem_of; exact H|]. split; [exact H0|].
+    unfold wf_elem. intros H. peel H H1. peel H Hwo. peel H Hq. peel H H0. split; [apply kind_elem_of; exact H|]. split; [exact H0|].
     unfold var_type in H1. destruct (v_types var) as [|t [|? ?]]; try discriminate.
     assert (Hsimple : simple_type t = true -> simple_type t && match v_clazz var with None => true | Some _ => false end
               && match v_factory var, v_tokens_factory var with
@@ -548,7 +560,28 @@ Section Gen.
 
   Lemma wf_elem_qname var : wf_elem var = true -> v_qname var <> [].
   Proof.
-    unfold wf_elem. intros H. peel H H1. peel H Hq. intros E. rewrite E in Hq. discriminate.
+    unfold wf_elem. intros H. peel H H1. peel H Hwo. peel H Hq. intros E. rewrite E in Hq. discriminate.
+  Qed.
+
+  Lemma wf_attr_nowrap var : wf_attr var = true -> v_wrapper_qname var = None.
+  Proof.
+    unfold wf_attr. intros H. peel H H4. peel H H3. peel H H2. peel H H1. peel H Hnw.
+    unfold no_wrapper in Hnw. destruct (v_wrapper_qname var); [discriminate|reflexivity].
+  Qed.
+
+  Lemma wf_text_nowrap var : wf_text var = true -> v_wrapper_qname var = None.
+  Proof.
+    unfold wf_text. intros H. peel H H4. peel H H3. peel H H2. peel H Hnw.
+    unfold no_wrapper in Hnw. destruct (v_wrapper_qname var); [discriminate|reflexivity].
+  Qed.
+
+  (* a wrapper sits on a plain list field and has a non-empty name *)
+  Lemma wf_elem_wrapper var w : wf_elem var = true -> v_wrapper_qname var = Some w ->
+    w <> [] /\ (exists f, v_factory var = Some f) /\ v_tokens_factory var = None.
+  Proof.
+    unfold wf_elem. intros H Hw. peel H H1. peel H Hwo. unfold wrapper_ok in Hwo. rewrite Hw in Hwo.
+    peel Hwo Ht. peel Hwo Hf. split; [intros E; rewrite E in Hwo; discriminate|].
+    split; [destruct (v_factory var); [eauto|discriminate]|destruct (v_tokens_factory var); [discriminate|reflexivity]].
   Qed.
 
   (* ---------------------------------------------------------------- the induction *)
@@ -595,6 +628,18 @@ Section Gen.
     - destruct l; [discriminate|congruence].
     - destruct tt, (is_tuple tf); try reflexivity; discriminate.
   Qed.
+
+  Lemma wrap_ok var (r : gres (list wevent)) items :
+    r = Ok (flat_map bflat items) ->
+    (evs <- r ;; Ok (wrap_events var evs)) = Ok (flat_map bflat (g_wrap var items)).
+  Proof.
+    intros ->. cbn [gbind]. unfold wrap_events, g_wrap.
+    destruct (v_wrapper_qname var) as [[|ch w]|]; try reflexivity.
+    cbn [flat_map bflat map app]. rewrite app_nil_r. reflexivity.
+  Qed.
+
+  Lemma g_field_some rec var x : x <> VNone -> g_field rec var x = g_wrap var (g_items rec var x).
+  Proof. intros H. unfold g_field. destruct x; try reflexivity. congruence. Qed.
 
   Lemma run_obj : forall n cl o qn,
     wfr cl -> fits n cl o = true ->
@@ -643,11 +688,11 @@ Section Gen.
         destruct (wf_class_evar m var Hwc Hvar) as [[Hwe Hine]|[Htx [Hwt Hnoe]]].
         - (* an element field *)
           destruct (wf_elem_inv var Hwe) as [Hk [Hc Hty]].
-          destruct (var_common_inv var Hc) as [_ [Hmx [Hany [Hn [_ [_ [Hwr [_ _]]]]]]]].
-          unfold wrap_events. rewrite Hwr, gbind_id.
+          destruct (var_common_inv var Hc) as [_ [Hmx [Hany [Hn [_ [_ [_ [_ _]]]]]]]].
+          rewrite (g_field_some (gobj n) var x Hxn). apply wrap_ok.
           pose proof (Hfe _ var Hine (or_introl eq_refl)) as Hfv. rewrite <- Hxe in Hfv.
           assert (Hkt : v_is KText var = false) by (destruct Hk as [_ [Hkt _]]; exact Hkt).
-          unfold g_field. rewrite Hkt.
+          unfold g_items. rewrite Hkt.
           destruct Hty as [[k [Htys [Hcl Htf]]]|[t [Htys [Hst Hcl]]]].
           + (* class typed *)
             rewrite Htf. unfold Fits.fits_elem in Hfv. rewrite Htf in Hfv.
@@ -732,11 +777,11 @@ Section Gen.
                  rewrite (Hprim x f1 Hfx). rewrite Ex. cbn [flat_map g_item]. rewrite app_nil_r. reflexivity.
         - (* the Text field *)
           destruct (wf_text_inv var Hwt) as [Hwtk [Hwt0 [t [Htys Hwtd]]]]. clear Hwt. rename Hwtk into Hwt.
-          destruct (var_common_inv var Hwt0) as [_ [Hmx [_ [_ [_ [_ [Hwr [_ _]]]]]]]].
-          unfold wrap_events. rewrite Hwr, gbind_id.
+          destruct (var_common_inv var Hwt0) as [_ [Hmx [_ [_ [_ [_ [_ [_ _]]]]]]]].
+          rewrite (g_field_some (gobj n) var x Hxn). apply wrap_ok.
           destruct f as [|f0]; [cbn [odepth] in *; lia|].
-          rewrite (run_value_text f0 var x Hmx Hwt). cbn [gbind].
-          unfold g_field. rewrite Hwt.
+          rewrite (run_value_text f0 var x Hmx Hwt).
+          unfold g_items. rewrite Hwt.
           rewrite Htx in Hft. rewrite <- Hxe in Hft.
           unfold Fits.fits_text, vtype in Hft. rewrite Htys in Hft.
           unfold convert_data.
@@ -777,7 +822,13 @@ Section Gen.
     EElem (Bind.split_qname (v_qname var)) [] (e_data (v_format var) x).
   Definition e_item (rec : option qname -> value -> XmlNs.enode) (var : xvar) (x : value) : XmlNs.enode :=
     match x with VObj _ _ => rec (Some (v_qname var)) x | _ => e_prim var x end.
-  Definition e_field (rec : option qname -> value -> XmlNs.enode) (var : xvar) (x : value) : list XmlNs.enode :=
+  Definition e_wrap (var : xvar) (items : list XmlNs.enode) : list XmlNs.enode :=
+    match v_wrapper_qname var with
+    | Some ((_ :: _) as w) => [EElem (Bind.split_qname w) [] items]
+    | _ => items
+    end.
+
+  Definition e_items (rec : option qname -> value -> XmlNs.enode) (var : xvar) (x : value) : list XmlNs.enode :=
     match x with
     | VNone => []
     | _ =>
@@ -796,6 +847,8 @@ Section Gen.
                  end
              end
     end.
+  Definition e_field (rec : option qname -> value -> XmlNs.enode) (var : xvar) (x : value) : list XmlNs.enode :=
+    match x with VNone => [] | _ => e_wrap var (e_items rec var x) end.
 
   Fixpoint eobj (n : nat) (qn : option qname) (o : value) {struct n} : XmlNs.enode :=
     match n, o with
